@@ -79,6 +79,7 @@ impl Property for C05 {
     fn gen(&self, rng: &mut Rng, tier: Tier, idx: u64) -> Scenario {
         let mut sc = Scenario::new();
         sc.set("m128", rng.bool() as i64);
+        sc.set("dev", if rng.bool() { 0 } else { rng.range(1, 127) });
         let kind = match idx % 12 {
             0..=5 => 0,
             6 | 7 => 1,
@@ -133,7 +134,14 @@ impl Property for C05 {
 
     fn exec(&self, sc: &Scenario, ctx: &mut RunCtx) -> Result<(), Fail> {
         let m128 = sc.get("m128") != 0;
-        let cfg = MCfg { m128, ..Default::default() };
+        // sound / device settings are irrelevant to time keeping: seeded (dev bits: sound, beeper, AY,
+        // Kempston, mouse; absent in older replay files = defaults)
+        let dev = sc.get("dev");
+        let cfg = if dev == 0 {
+            MCfg { m128, ..Default::default() }
+        } else {
+            MCfg { m128, sound: dev & 1 != 0, beeper: dev & 2 != 0, ay: dev & 4 != 0, kempston: dev & 8 != 0, mouse: dev & 16 != 0, rate: [44100usize, 8000, 384000, 22050][(dev as usize >> 5) & 3], ..Default::default() }
+        };
         let f = cfg.frame_len() as i64;
         let mut e = new_emu(&cfg);
         let machine = if m128 { "128k" } else { "48k" };
